@@ -12,8 +12,7 @@ Open Scope Z_scope.
    as a dict) and the decoder consumes exactly the encoding, whatever data [rest] follows (nothing
    can follow a type documented to consume the whole buffer: [greedy]); and a structure encodes to
    the same bytes from a dict and from the positional sequence of its values. *)
-Definition roundtrip_law (t : ty) (v : val) : Prop :=
-  forall rest, (greedy t = true -> rest = []) ->
+Definition roundtrip_at (t : ty) (v : val) (rest : bytes) : Prop :=
   exists bs, encode t v = Ok bs /\ decode t (bs ++ rest) = Ok (norm t v, rest).
 
 Definition struct_dict_positional_law : Prop :=
@@ -21,14 +20,15 @@ Definition struct_dict_positional_law : Prop :=
     encode (TStruct SPlain ms) (VDict kvs) = encode (TStruct SPlain ms) (VList (map snd kvs)).
 
 Definition C06_full : Prop :=
-  (forall t v, doc_dom t v = true -> roundtrip_law t v) /\ struct_dict_positional_law.
+  (forall t v rest, doc_dom t v = true -> (doc_greedy t = true -> rest = []) -> roundtrip_at t v rest)
+  /\ struct_dict_positional_law.
 
 (* The code falsifies it.  Witness: STRING2.decode(STRING2.encode("abc")) raises DataError (the
    length prefix counts characters, the decoder reads that many BYTES). *)
 Definition STRING2_ty : ty := TStr false 2 Utf16.
 Theorem C06_full_refuted : ~ C06_full.
 Proof.
-  intros [H _]. specialize (H STRING2_ty (VStr [97; 98; 99]) eq_refl [] (fun _ => eq_refl)).
+  intros [H _]. specialize (H STRING2_ty (VStr [97; 98; 99]) [] eq_refl (fun _ => eq_refl)).
   destruct H as (bs & He & Hd). vm_compute in He. injection He as <-. vm_compute in Hd. discriminate Hd.
 Qed.
 Print Assumptions C06_full_refuted.
@@ -46,13 +46,9 @@ Example dev_array_length_type :
   doc_dom (TArrPrefix false (ty_named "UINT") (ty_named "UINT")) (VList [VInt 1; VInt 2]) = true
   /\ rt_result (TArrPrefix false (ty_named "UINT") (ty_named "UINT")) (VList [VInt 1; VInt 2]) [] = Err DataError.
 Proof. split; reflexivity. Qed.
-(* STRINGN.encode("") cannot be decoded (BufferEmptyError); non-ASCII text: count in characters, read in bytes *)
+(* STRINGN.encode("") cannot be decoded (BufferEmptyError) *)
 Example dev_stringn_empty :
   doc_dom (ty_named "STRINGN") (VStr []) = true /\ rt_result (ty_named "STRINGN") (VStr []) [] = Err BufferEmpty.
-Proof. split; reflexivity. Qed.
-Example dev_stringn_non_ascii :
-  doc_dom (ty_named "STRINGN") (VStr [233; 97]) = true
-  /\ rt_result (ty_named "STRINGN") (VStr [233; 97]) [] = Ok (VStr [233], [97]).
 Proof. split; reflexivity. Qed.
 (* DATE_AND_TIME.encode(value): TypeError (two positional parameters) *)
 Example dev_date_and_time :
@@ -86,32 +82,33 @@ Example dev_pccc_string :
   doc_dom TPcccString (VStr [97; 98; 99]) = true /\ encode TPcccString (VStr [97; 98; 99]) = Err DataError
   /\ rt_result TPcccString (VStr [97; 98]) [120; 121] = Ok (VStr [97; 98; 121; 120], []).
 Proof. repeat split; reflexivity. Qed.
-(* Struct with an unnamed member: decode drops it (the law holds up to [norm]), but two members of
-   the same name collapse *)
-Example dev_struct_duplicate_names :
-  let t := TStruct SPlain [(Some [97], ty_named "USINT"); (Some [97], ty_named "USINT")] in
-  doc_dom t (VList [VInt 1; VInt 2]) = true
-  /\ rt_result t (VList [VInt 1; VInt 2]) [] = Ok (VDict [(Some [97], VInt 2)], []).
-Proof. repeat split; reflexivity. Qed.
 (* ListIdentityObject has no _encode: what decode returns cannot be encoded *)
 Example dev_list_identity :
   match ListIdentityObject_ty with
   | Some t =>
-      exists v rest, decode t (zeros 22 ++ [1; 0; 12; 0; 3; 0; 2; 1; 0; 0; 120; 86; 52; 18; 1; 97; 5]) = Ok (v, rest)
-                     /\ doc_dom t v = true /\ encode t v = Err DataError
+      match decode t (zeros 22 ++ [1; 0; 12; 0; 3; 0; 2; 1; 0; 0; 120; 86; 52; 18; 1; 97; 5]) with
+      | Ok (v, _) => doc_dom t v = true /\ encode t v = Err DataError
+      | Err _ => False
+      end
   | None => False
   end.
-Proof. vm_compute. eexists. eexists. repeat split. Qed.
+Proof. vm_compute. split; reflexivity. Qed.
 
-(* The guard: exactly the complement of the computable side conditions of the positive theorem. *)
-Definition C06_guard (t : ty) (v : val) : bool := negb (no_stag t && wf_ty t && in_dom t v).
+(* The guard: exactly the complement of the computable side conditions of the positive theorem:
+   the type is outside [wf_ty] or the value outside [in_dom] (Model/CodecDom.v; every such class in
+   the documented domain is one of the deviations above), or data follows a type whose decoder
+   reads to the end of the buffer ([greedy] = [doc_greedy] plus PCCC_STRING). *)
+Definition C06_guard (t : ty) (v : val) (rest : bytes) : bool :=
+  negb (no_stag t && wf_ty t && in_dom t v) || (greedy t && match rest with [] => false | _ => true end).
 
 Theorem C06_guarded :
-  (forall t v, C06_guard t v = false -> roundtrip_law t v) /\ struct_dict_positional_law.
+  (forall t v rest, C06_guard t v rest = false -> roundtrip_at t v rest) /\ struct_dict_positional_law.
 Proof.
   split.
-  - intros t v Hg rest Hr. unfold C06_guard in Hg. apply Bool.negb_false_iff in Hg.
-    apply andb_prop in Hg as [Hg Hd]. apply andb_prop in Hg as [Hn Hwf]. exact (roundtrip_no_stag t v rest Hn Hwf Hd Hr).
+  - intros t v rest Hg. unfold C06_guard in Hg. apply Bool.orb_false_elim in Hg as [Hg Hr].
+    apply Bool.negb_false_iff in Hg.
+    apply andb_prop in Hg as [Hg Hd]. apply andb_prop in Hg as [Hn Hwf].
+    apply (roundtrip_no_stag t v rest Hn Hwf Hd). intros Hgr. rewrite Hgr in Hr. now destruct rest.
   - exact struct_dict_positional.
 Qed.
 Print Assumptions C06_guarded.
@@ -128,15 +125,17 @@ Definition ex_val : val :=
   VDict [(Some [110], VInt 513); (None, VInt (-1)); (Some [115], VList [VStr [97; 98]; VStr []; VStr [99]]);
          (Some [102], VStr [120; 121; 122; 119]); (Some [114], VFloat 0x3fb999999999999a)].
 Example C06_nonvacuous :
-  C06_guard ex_ty ex_val = false /\ doc_dom ex_ty ex_val = true
+  C06_guard ex_ty ex_val [7; 7] = false /\ doc_dom ex_ty ex_val = true
   /\ encode ex_ty ex_val = Ok [1; 2; 255; 2; 0; 97; 98; 0; 0; 3; 0; 0; 0; 120; 121; 122; 0; 205; 204; 204; 61]
   /\ decode ex_ty ([1; 2; 255; 2; 0; 97; 98; 0; 0; 3; 0; 0; 0; 120; 121; 122; 0; 205; 204; 204; 61] ++ [7; 7])
      = Ok (VDict [(Some [110], VInt 513); (Some [115], VList [VStr [97; 98]; VStr []]); (Some [102], VStr [120; 121; 122]);
                   (Some [114], VFloat 0x3fb99999a0000000)], [7; 7])
-  /\ C06_guard (TArrAll ex_ty) (VList [ex_val; ex_val]) = false
+  /\ C06_guard (TArrAll ex_ty) (VList [ex_val; ex_val]) [] = false
   /\ match ModuleIdentityObject_ty with
-     | Some t => exists v rest, decode t [1; 0; 12; 0; 3; 0; 2; 1; 0; 0; 120; 86; 52; 18; 1; 97; 5] = Ok (v, rest)
-                                /\ C06_guard t v = false /\ norm t v = v
+     | Some t => match decode t [1; 0; 12; 0; 3; 0; 2; 1; 0; 0; 120; 86; 52; 18; 1; 97; 5] with
+                 | Ok (v, rest) => C06_guard t v rest = false /\ norm t v = v
+                 | Err _ => False
+                 end
      | None => False
      end.
-Proof. vm_compute. repeat split. eexists. eexists. repeat split. Qed.
+Proof. vm_compute. repeat split. Qed.
